@@ -207,6 +207,9 @@ def inner_inv(I, phase):
     base = I.ghost.get("complete_lines_before_this_chunk")
     split_now = I.ghost.get("split_of_this_chunk")
     seq = getattr(I, "loop_seq", None)
+    if I.ghost.get("split_without_decoder") and phase == "entry":
+        # chunk independence needs every byte to pass through ONE incremental decoder (a character may straddle chunks)
+        return [("C05._stdout_reader.chunk_loop.decodes_incrementally", z3.BoolVal(False))]
     if base is None or split_now is None or seq is None:
         raise Unsupported("C05 proof script: the line loop does not run over the pieces of a str.split of this chunk")
     # the loop runs over the complete lines of this chunk's split (all but the last piece), whatever the local that
@@ -245,6 +248,8 @@ def split_lemma_hook(I, x, sep, result_seq):
     tb = I.ghost.get("text_before_chunk")
     d = I.ghost.get("chunk_text")
     if tb is None or d is None:
+        # a buffer is split in an iteration in which no chunk went through the incremental decoder
+        I.ghost["split_without_decoder"] = True
         return
     spb = sp(tb)
     new = sp(z3.Concat(tb, d))
@@ -305,7 +310,10 @@ class C05(Check):
                 f"{ST.FASTJSON}::loads": ST.LoadsModular()}
 
     def contracts(self):
-        return [StdoutReader()]
+        from checks import C13
+        # "handed to message processing" ends on the read stream: the routing step (every message is offered to the
+        # shared read stream exactly once, whatever the state of the notification side channel) is re-verified here
+        return [StdoutReader(), C13.RouteMessage()]
 
     def loop_invariants(self):
         k = f"{STDIO}::StdioClient._stdout_reader"
